@@ -9,7 +9,10 @@ import (
 	"github.com/anyproto/any-sync/util/crypto"
 )
 
-var ErrInvalidSignature = errors.New("invalid signature")
+var (
+	ErrInvalidSignature  = errors.New("invalid signature")
+	ErrKeyPeerIdMismatch = errors.New("key peer id doesn't match the signed key and peer")
+)
 
 type KeyValue struct {
 	KeyPeerId string
@@ -53,8 +56,12 @@ func KeyValueFromProto(proto *spacesyncproto.StoreKeyValue, verify bool) (kv Key
 	kv.PeerId = peerId.PeerId()
 	kv.Key = innerValue.Key
 	kv.AclId = innerValue.AclHeadId
-	// TODO: check that key-peerId is equal to key+peerId?
 	if verify {
+		// the slot a value is filed under is the one named inside the signed bytes: anybody can relabel
+		// the unsigned envelope and overwrite another device's slot otherwise
+		if kv.KeyPeerId != kv.Key+"-"+kv.PeerId {
+			return kv, ErrKeyPeerIdMismatch
+		}
 		if verify, _ = identity.Verify(proto.Value, proto.IdentitySignature); !verify {
 			return kv, ErrInvalidSignature
 		}
